@@ -150,6 +150,11 @@ def run(chk):
                                         '2': {'type': 'ipv4-addr', 'value': '5.6.7.8', 'resolves_to_refs': ['3']}, '3': {'type': 'mac-addr', 'value': '00:00:00:00:00:01'}},
             'file in directory (forward)': {'0': {'type': 'file', 'name': 'f', 'parent_directory_ref': '1'}, '1': {'type': 'directory', 'path': '/tmp', 'contains_refs': ['0']}},
             'process tree': {'5': {'type': 'process', 'pid': 1, 'child_refs': ['7'], 'binary_ref': '9'}, '7': {'type': 'process', 'pid': 2, 'parent_ref': '5'}, '9': {'type': 'file', 'name': 'b'}},
+            # property names and value freedoms taken from the specification text, not from the library's tables
+            'file times in any order': {'0': {'type': 'file', 'name': 'f', 'created': '2020-01-02T00:00:00Z', 'modified': '2020-01-01T00:00:00Z', 'accessed': '2019-01-01T00:00:00Z'}},
+            'encapsulated network traffic': {'0': {'type': 'ipv4-addr', 'value': '1.2.3.4'}, '1': {'type': 'network-traffic', 'src_ref': '0', 'protocols': ['ipv4', 'gre'], 'encapsulated_by_ref': '2'},
+                                             '2': {'type': 'network-traffic', 'src_ref': '0', 'protocols': ['ipv4'], 'encapsulates_refs': ['1']}},
+            'process times and file times': {'0': {'type': 'process', 'pid': 3, 'created': '2020-01-02T00:00:00Z'}, '1': {'type': 'directory', 'path': '/x', 'created': '2020-01-02T00:00:00Z', 'modified': '2020-01-01T00:00:00Z'}},
         }
         for name, objs in members.items():
             yield (name, {'type': 'observed-data', 'id': 'observed-data--' + G.UUID, 'created': G.T1, 'modified': G.T1, 'first_observed': G.T1, 'last_observed': G.T1,
@@ -164,7 +169,29 @@ def run(chk):
             out = json.loads(o.serialize(include_optional_defaults=True))
             if not same_value(x, out): return (f'preserve#observed-data container:{name}', f'observed-data container "{name}" ({fname}) not preserved', {'input': x, 'output': out})
     chk.bounded('STIX 2.0 observed-data containers with forward and backward member references', list(container_cases()), check_container, classify=lambda c: c[0],
-                bound='5 containers after the specification\'s examples (e-mail, network traffic, directory, process tree), bare and in a bundle')
+                bound='8 containers after the specification text (e-mail, network traffic incl. encapsulation, directory, process tree, file / directory / process times in any order), bare and in a bundle')
+
+    # ---- boundary of the order rules: equal instants (same and different spelling) are legal wherever the specification says "later than or equal to"
+    def equal_cases():
+        same = ('2020-01-01T00:00:00.25Z', '2020-01-01T00:00:00.250Z')
+        for ver in ('2.0', '2.1'):
+            for label, cat, cls, kw in G.variants(ver, alts=(0,), with_all=False):
+                if not label.endswith(':minimal') or cat not in ('objects', 'observables'): continue
+                for early, late in (('first_seen', 'last_seen'), ('first_observed', 'last_observed'), ('start', 'end'), ('created', 'modified')):
+                    if early in cls._properties and late in cls._properties:
+                        for a, b in ((same[0], same[0]), (same[0], same[1]), (same[1], same[0])): yield (ver, label, cat, cls, kw, early, late, a, b)
+
+    def check_equal(case):
+        ver, label, cat, cls, kw, early, late, a, b = case
+        kw = dict(kw, **{early: a, late: b})
+        if late == 'end': kw['is_active'] = False
+        if (early, late) == ('created', 'modified') and cat == 'observables': return None
+        try: o = G.build(label, cat, cls, kw, ver)
+        except Exception as ex:
+            if 'must' in str(ex) and (late in str(ex) or early in str(ex)): return (f'reject#equal instants:{label.split(":")[2]}:{late}', f'{label}: {late} == {early} ({a} / {b}) is legal but was refused: {type(ex).__name__}: {str(ex)[:120]}', {'kwargs': repr(kw)})
+            return None
+    chk.bounded('order rules: equal instants are accepted where the specification allows them', list(equal_cases()), check_equal, classify=lambda c: (c[1], c[5], c[7], c[8]),
+                bound='every type with first_seen/last_seen, first_observed/last_observed, start/end or created/modified x 3 spellings of the same instant')
 
     # ---- falsy values and the known finding
     for d, what in ((dict(type='malware', spec_version='2.1', id='malware--' + G.UUID, created=G.T1, modified=G.T1, is_family=False, name=''), 'false / empty-string values'),
